@@ -927,7 +927,7 @@ def _cmp_decide(n, dkey, v, consts=None):
     return None
 
 
-def edpe_blocks(f, dkey, v, extra_decide=None, start=None, blocked=()):
+def edpe_blocks(f, dkey, v, extra_decide=None, start=None, blocked=(), edges_out=None):
     """Blocks of f reachable when every branch on `dkey` is decided for value v.
     Branches on anything else are explored both ways.  dkey is a key() string such
     as 't->type'.  Sound over-approximation provided dkey is not reassigned on the
@@ -1029,6 +1029,9 @@ def edpe_blocks(f, dkey, v, extra_decide=None, start=None, blocked=()):
                     succs = [s[0]] if s is not None and s[1] else []
         if succs is None:
             succs = b.rsucc
+        if edges_out is not None:
+            for s2 in succs:
+                edges_out.add((bid, s2))
         st.extend(succs)
     return seen
 
